@@ -1,4 +1,5 @@
-"""C18 -- documentation is taken from the directly preceding doc comment, verbatim (back-scan only; engine K + engine A for the scan start)."""
+"""C18 -- documentation is taken from the directly preceding doc comment, verbatim (back-scan: engine K; scan start and doc sources: engine A / content evaluator;
+paragraph / line / tag patterns: z3 regular expressions; the composed text only natively)."""
 import ksupport
 import native
 from common import src_line
@@ -15,9 +16,67 @@ SPECS = [
 def check(run):
     run.functions += ['javadoc::find_content_string (%s)' % src_line('src/javadoc.rs', 'fn find_content_string'), 'the get_javadoc(input, p0) call of every documentable grammar action (generated wrappers)']
     run.bounds += ['comment body <= 2 (quick) / 3, 5 (thorough) characters over 8 classes (space, LF, CR, TAB, ASCII letter, 2-, 3-, 4-byte code point); 4 prefixes; 2 separators from 6 forms']
-    run.outside += ['parse_javadoc (three Regex::new per call): decoration removal, line joining, @tag splitting are not decided',
-                    'the regex-based normalisation of the comment body']
+    run.outside += ['parse_javadoc: the regex crate itself and the exact result of split / replace_all (only the languages of the three patterns and the call pipeline are decided; the composed text natively)',
+                    'white space other than blank, tab, CR, LF between a doc comment and its construct (form feed, NBSP ...: the lexer skips it, the back-scan does not; outside the LF / CRLF layouts the statement quantifies over)']
     run.extra['explanation'] = 'Kani/CBMC over the real backwards state machine with the comment text symbolic; native sweep of 247 texts (accented, CJK, emoji) confirms.'
     ksupport.decide(run, 'C18', SPECS, {'javadoc': native.sweep_javadoc})
     import c04
     c04.docscan_obligation(run)
+    text_structure_obligations(run)
+    attachment_obligation(run)
+
+
+def text_structure_obligations(run):
+    """the three patterns of parse_javadoc against the inclusions the statement implies (z3 regular expressions, unbounded words)"""
+    import mir, docregex
+    run.functions += ['javadoc::parse_javadoc: the patterns given to Regex::new and the split / replace_all / join pipeline (%s)' % src_line('src/javadoc.rs', 'fn parse_javadoc')]
+    try:
+        obs = docregex.obligations(mir.Program(mir.dump_mir()))
+    except mir.Unsupported as e:
+        run.inconclusive('patterns of parse_javadoc', 'L', str(e)); return
+    nat = None
+    for name, status, wit, nq in obs:
+        if status == 'holds':
+            run.holds(name, 'L', queries=max(1, nq), bound='unbounded words')
+        elif status == 'violated':
+            if nat is None:
+                nat = native.sweep_doc_text()[1]
+            run.violated(name, 'L', 'doc-text:' + name[:2], {'solver': wit, 'native': nat[:1]}, bool(nat), queries=nq, detail=str(wit)[:200])
+        else:
+            run.inconclusive(name, 'L', str(wit)[:200])
+    if nat is None:
+        n, nat = native.sweep_doc_text()
+        run.validated += n
+        if nat:
+            run.inconclusive('native documentation-text sweep', 'replay', 'native discrepancy not explained by a solver verdict: %s' % str(nat[0])[:300])
+
+
+def attachment_obligation(run):
+    """every documentable node takes its documentation from get_javadoc(input, <first position of the construct, before its annotations>)
+    and nothing else: read off the symbolically evaluated grammar actions (content evaluator of C02)"""
+    import mir, mirror, replay
+    title = 'every `doc` field a grammar action fills is get_javadoc(input, p) with p a captured position, and no other field receives documentation'
+    try:
+        An = mirror.Analysis(replay.generated_parser(), mir.Program(mir.dump_mir()))
+    except (mir.Unsupported, RuntimeError) as e:
+        run.inconclusive(title, 'A', str(e)); return
+    if An.unsupported:
+        run.inconclusive(title, 'A', 'action outside the evaluator: ' + An.unsupported[0]); return
+    bad, n = [], 0
+    for r, (lhs, rhs, res) in sorted(An.results.items()):
+        for conds, v in res:
+            if v[0] != 'struct':
+                continue
+            for k, x in v[2]:
+                is_doc = isinstance(x, tuple) and x and x[0] == 'doc'
+                if k == 'doc':
+                    n += 1
+                    if not is_doc or not all(isinstance(a, tuple) and a[0] in ('pos', 'input') for a in x[1]) or not any(a[0] == 'pos' for a in x[1]):
+                        bad.append('%s.doc is %s' % (lhs, str(x)[:80]))
+                elif is_doc:
+                    bad.append('%s.%s receives documentation' % (lhs, k))
+    if bad:
+        nb = native.sweep_doc_attachment()[1]
+        run.violated(title, 'A', 'doc-source', {'detail': bad[:3], 'native': nb[:1]}, bool(nb), detail=bad[0])
+    else:
+        run.holds(title, 'A', queries=n, bound='%d doc fields over all productions' % n)
